@@ -26,6 +26,8 @@ def run(project, rep):
     rep.run(Q.q_r5_trnuid, project, schema, rep)
     rep.run(Q.q_r6_serialize, project, rep)
     rep.run(Q.q_r11_explicit_overrides_honoured, project, rep)
+    rep.run(Q.q_r12_groupby_groups_consumed_once, project, rep)
+    rep.run(Q.q_r13_send_path_leaves_the_request_alone, project, rep)
     rep.run(Q.q_r7_pipeline, project, rep)
     rep.run(Q.q_r10_builders_keep_no_state, project, rep)
     from .. import rules_wire as W
